@@ -22,7 +22,7 @@ import (
 
 type fetchCase struct {
 	N, NB  int
-	Fail   []int // per source: 0 ok, 1 fetch error / missing, 2 garbage body, 3 invalid profile / HTTP 500, 4 HTTP 404
+	Fail   []int // per source: 0 ok, 1 fetch error / missing, 2 garbage body, 3 invalid profile / HTTP 500, 4 HTTP 404, 5/6 invalid profile object, 7 gzip stream failing its checksum
 	FailB  []int
 	Own    bool // use pprof's own fetcher (files and URLs) instead of the Fetcher plug-in
 	URL    []bool
@@ -48,17 +48,17 @@ func genCase(t *rapid.T) *fetchCase {
 			switch mode {
 			case 1:
 				if rapid.IntRange(0, 9).Draw(t, label+"f") == 0 {
-					f[i] = rapid.IntRange(1, 6).Draw(t, label+"kind")
+					f[i] = rapid.IntRange(1, 7).Draw(t, label+"kind")
 				}
 			case 2:
 				if rapid.Bool().Draw(t, label+"f") {
-					f[i] = rapid.IntRange(1, 6).Draw(t, label+"kind")
+					f[i] = rapid.IntRange(1, 7).Draw(t, label+"kind")
 				}
 			case 3:
-				f[i] = rapid.IntRange(1, 6).Draw(t, label+"kind")
+				f[i] = rapid.IntRange(1, 7).Draw(t, label+"kind")
 			case 4:
 				if i < 128 && n > 128 {
-					f[i] = rapid.IntRange(1, 6).Draw(t, label+"kind")
+					f[i] = rapid.IntRange(1, 7).Draw(t, label+"kind")
 				}
 			}
 			da[i] = rapid.IntRange(0, 3).Draw(t, label+"da")
@@ -132,6 +132,14 @@ func httpResp(code int, body []byte) (*http.Response, error) {
 	return &http.Response{StatusCode: code, Status: fmt.Sprintf("%d status", code), Body: io.NopCloser(bytes.NewReader(body)), Header: http.Header{}}, nil
 }
 
+// damaged is a gzip-compressed profile whose stream fails its integrity check (one bit of the CRC-32 trailer
+// flipped): the inflated bytes are a perfectly decodable profile, but the source could not be read intact
+func damaged(p *profile.Profile) []byte {
+	b := serial(p)
+	b[len(b)-6] ^= 0x10
+	return b
+}
+
 func serial(p *profile.Profile) []byte {
 	var b bytes.Buffer
 	p.Write(&b)
@@ -177,6 +185,8 @@ func run(c *fetchCase, delays []int, skipFailed bool) outcome {
 					tr.resp[path] = func() (*http.Response, error) { return httpResp(200, []byte("<html>not a profile</html>")) }
 				case 3, 5, 6:
 					tr.resp[path] = func() (*http.Response, error) { return httpResp(500, []byte("boom")) }
+				case 7:
+					tr.resp[path] = func() (*http.Response, error) { return httpResp(200, damaged(p)) }
 				default:
 					tr.resp[path] = func() (*http.Response, error) { return httpResp(404, []byte("nope")) }
 				}
@@ -187,6 +197,8 @@ func run(c *fetchCase, delays []int, skipFailed bool) outcome {
 					os.WriteFile(name, serial(p), 0o644)
 				case 2, 3, 5, 6:
 					os.WriteFile(name, []byte("garbage that is no profile"), 0o644)
+				case 7:
+					os.WriteFile(name, damaged(p), 0o644)
 				default: // missing file
 				}
 			}
@@ -205,6 +217,8 @@ func run(c *fetchCase, delays []int, skipFailed bool) outcome {
 				var b bytes.Buffer
 				bad.WriteUncompressed(&b)
 				s.Data = b.Bytes()
+			case 7:
+				s.Prof, s.Data = nil, damaged(p)
 			case 5:
 				// the plug-in hands over a profile object that is not valid (two values for one sample type)
 				bad := mkProfile(i, base, c.Units)
@@ -420,7 +434,7 @@ func sorted(s []string) []string {
 
 func TestPropFetch(t *testing.T) {
 	vk.Main(t, vk.Spec[fetchCase]{ID: "C16", Facet: "fetch", Quick: 600, Thorough: 3000, Gen: genCase, Check: check, Journal: true,
-		Rule: "source lists of 1..300 (sizes biased to 1,2,127,128,129,130,255,256,257,300) and base lists of 0..129 (-base or -diff_base), every source with its own comment, header and stack, in a quarter of the cases with the sample type in a different unit per source (s, ns, ms); failure subsets (none/few/many/all/the whole first chunk of 128) of kinds {fetcher error or missing file, garbage body, invalid-but-decodable profile or HTTP 500, HTTP 404, invalid profile object handed over by the plug-in (too many or too few values per sample)}; through the Fetcher plug-in or through pprof's own file/HTTP fetcher with a scripted RoundTripper; per-source delays perturb the completion order; oracle: canonical sum of exactly the successful sources minus bases, comments and header precedence in command-line order, one error line per failed source plus the 'Fetched k of n' line, error iff nothing (or no base) could be fetched, byte-identical output under a second completion order and with the failing sources left off; non-trivial = >=2 successes and >=1 failure, or a list crossing 128"})
+		Rule: "source lists of 1..300 (sizes biased to 1,2,127,128,129,130,255,256,257,300) and base lists of 0..129 (-base or -diff_base), every source with its own comment, header and stack, in a quarter of the cases with the sample type in a different unit per source (s, ns, ms); failure subsets (none/few/many/all/the whole first chunk of 128) of kinds {fetcher error or missing file, garbage body, invalid-but-decodable profile or HTTP 500, HTTP 404, invalid profile object handed over by the plug-in (too many or too few values per sample), gzip body that inflates to a good profile but fails its checksum}; through the Fetcher plug-in or through pprof's own file/HTTP fetcher with a scripted RoundTripper; per-source delays perturb the completion order; oracle: canonical sum of exactly the successful sources minus bases, comments and header precedence in command-line order, one error line per failed source plus the 'Fetched k of n' line, error iff nothing (or no base) could be fetched, byte-identical output under a second completion order and with the failing sources left off; non-trivial = >=2 successes and >=1 failure, or a list crossing 128"})
 }
 
 // ---- facet tls: which https sources make it into the merge ----
